@@ -341,7 +341,11 @@ where
             }
             // TODO: maybe dynamic affection range
             let affected_range = this_range.start..(this_range.end + 1);
-            if input.token_change.overlaps(&affected_range) {
+            // A node can only be reused as it is,
+            // if its position relative to the enclosing reference did not change.
+            let relative_start = input.location_offset() - input.reference_pos;
+            let moved = relative_start != this.to_range().start;
+            if moved || input.token_change.overlaps(&affected_range) {
                 #[cfg(feature = "verif")]
                 crate::verif::count(&crate::verif::REPARSED);
                 match inner_parser.parse(input) {
